@@ -21,7 +21,10 @@ ASSUMPTIONS = ["|coefficient| < 1e15 (the printed form of larger floats contains
 BOUNDS = {"quick": {"strings": "<=2 factors", "sum_terms": 2}, "thorough": {"strings": "<=4 factors", "sum_terms": 4}}
 IDX = [0, 7, 12, 123]
 COEFS = [["py", 2], ["py", -1.5], ["py", 1e-05], ["py", -0.0], ["py", 0], ["c", 0, 1], ["c", 0, -2], ["c", 1, 2], ["c", 1e-07, -3], ["py", 123456789.125], ["c", 2, 0], ["npf", 0.5],
-         ["npc", 1, -1], ["py", 1.0], ["c", -0.25, 1e-06], ["py", 4.5e-09]]
+         ["npc", 1, -1], ["py", 1.0], ["c", -0.25, 1e-06], ["py", 4.5e-09],
+         # coefficients whose printed form is long (17 significant digits, exponents): the text format must carry them whole
+         ["c", 0.5, 0.012345678901234568], ["c", 2, 1.2345678901234567e-05], ["c", 0.30000000000000004, 0.3333333333333333], ["c", -0.1234567890123456, -9.876543210987654e-05],
+         ["py", 0.30000000000000004], ["py", -1.2345678901234567e-05]]
 
 
 def coef(c):
@@ -342,10 +345,11 @@ def artefacts():
 def run(run):
     thorough = run.tier == "thorough"
     S = strings(4 if thorough else 2)
-    terms = [[c, s] for s in S for c in (COEFS if (thorough or len(s) <= 1) else COEFS[::3])]
+    terms = [[c, s] for s in S for c in (COEFS if (thorough or len(s) <= 1) else COEFS[::3] + COEFS[16:])]
     ops = [{"t": t} for t in terms]
     pool = [[["py", 2], {"0": "X"}], [["c", 1, 2], {"7": "Y", "123": "Z"}], [["py", -1.5], {}], [["py", 0], {"12": "Z"}], [["py", 0.5], {"0": "X"}], [["py", -2], {"0": "X"}],
-            [["c", 0, -2], {"12": "Y"}], [["py", 1e-05], {"0": "Z", "7": "Z", "12": "Z"}], [["npc", 1, -1], {"7": "X"}], [["c", 1e-07, -3], {}]]
+            [["c", 0, -2], {"12": "Y"}], [["py", 1e-05], {"0": "Z", "7": "Z", "12": "Z"}], [["npc", 1, -1], {"7": "X"}], [["c", 1e-07, -3], {}],
+            [["c", 0.5, 0.012345678901234568], {"7": "Z"}], [["c", 2, 1.2345678901234567e-05], {"0": "Y", "123": "X"}], [["c", -0.1234567890123456, -9.876543210987654e-05], {}]]
     L = 4 if thorough else 2
     sums = [[]] + [[pool[i] for i in c] for k in range(1, L + 1) for c in itertools.product(range(len(pool)), repeat=k)]
     ops += [{"s": s} for s in sums]
